@@ -394,8 +394,9 @@ func (pv *Prov) loadDesc(u *ssa.UnOp, depth int, seen map[ssa.Value]bool) map[st
 	switch a := u.X.(type) {
 	case *ssa.FieldAddr:
 		f := FieldOfAddr(a)
-		// locally built aggregate: look for stores to the same field of the same base
-		if al, ok := a.X.(*ssa.Alloc); ok {
+		// locally built aggregate: look for stores to the same field of the same base (the base may have gone
+		// through a local variable or a captured variable first)
+		if al := pv.aggregateOf(a.X, 0); al != nil {
 			if st := pv.localFieldStores(al, a.Field); len(st) > 0 {
 				if seen[u] {
 					return map[string]bool{}
@@ -461,6 +462,40 @@ func (pv *Prov) loadDesc(u *ssa.UnOp, depth int, seen map[ssa.Value]bool) map[st
 	}
 	base := pv.desc(u.X, depth-1, seen)
 	return pv.mapSet(base, func(s string) string { return "*(" + s + ")" })
+}
+
+// aggregateOf: the `new T` / `&T{}` allocation v denotes when v is that allocation or the only value ever
+// stored to the local or captured variable v is loaded from.
+func (pv *Prov) aggregateOf(v ssa.Value, depth int) *ssa.Alloc {
+	if depth > 4 {
+		return nil
+	}
+	switch x := v.(type) {
+	case *ssa.Alloc:
+		if _, isStruct := x.Type().(*types.Pointer).Elem().Underlying().(*types.Struct); isStruct {
+			return x
+		}
+	case *ssa.UnOp:
+		if x.Op != token.MUL {
+			return nil
+		}
+		var cell *ssa.Alloc
+		switch c := x.X.(type) {
+		case *ssa.Alloc:
+			cell = c
+		case *ssa.FreeVar:
+			cell = pv.freeVarAlloc(c)
+		}
+		if cell == nil {
+			return nil
+		}
+		st := pv.allocStores(cell)
+		if len(st) != 1 {
+			return nil
+		}
+		return pv.aggregateOf(st[0], depth+1)
+	}
+	return nil
 }
 
 func (pv *Prov) localFieldStores(al *ssa.Alloc, field int) []ssa.Value {
